@@ -25,13 +25,51 @@ RULE = ("one seed -> one scenario: 1-4 DT8 gear models (short addresses, groups,
 ASSUMPTIONS = [
     "Tc unit model per DESIGN.md appendix A.1: SET TEMPORARY COLOUR TEMPERATURE takes DTR1:DTR0, ACTIVATE applies it, STORE COLOUR TEMPERATURE LIMIT (twice) uses DTR2 as selector, QUERY COLOUR VALUE answers the MSB and leaves the LSB in DTR0; all only directly after ENABLE DEVICE TYPE 8",
     "EnableDeviceType is inserted before each command that declares a device type, as every driver's run_sequence does",
+    "selector numbers (QUERY COLOUR VALUE table 11; STORE COLOUR TEMPERATURE Tc LIMIT: 0 coolest, 1 warmest, 2 physical coolest, 3 physical warmest) are rebuilt in the check by the library's member *names*; sequences are called with the library's enum member of that name",
 ]
 COMPONENTS = {"real": ["dali.gear.sequences.*", "dali.gear.colour command classes / selector enums"],
               "stub": ["bus and DT8 control gear (sim/busim.py)", "driver"]}
 PROBES = ["stacked-tridonic", "stacked-luba", "stacked-sci", "tc-edge-value", "msb-mask", "answer-dropped-msb", "answer-dropped-lsb", "answer-garbled", "bad-argument",
-          "group-destination", "broadcast-destination", "limit-stored", "stale-dtr"]
+          "group-destination", "broadcast-destination", "limit-stored", "limit-selector-by-name", "stale-dtr"]
 
 EDGES = [0, 1, 255, 256, 257, 0x00FF, 0xFF00, 0x7FFF, 0x8000, 65534, 65535]
+
+
+def _spec_query_selectors():
+    """IEC 62386-209 table 11 (QUERY COLOUR VALUE, DTR0 selector) by the
+    library's member names - built here from the structure of the table, not
+    read from the library's enum."""
+    t = {"XCoordinate": 0, "YCoordinate": 1, "ColourTemperatureTC": 2}
+    for n in range(6):
+        t["PrimaryNDimLevel%d" % n] = 3 + n
+    for i, c in enumerate(["Red", "Green", "Blue", "White", "Amber", "Freecolour"]):
+        t[c + "DimLevel"] = 9 + i
+    t["RGBWAFControl"] = 15
+    for n in range(6):
+        for i, c in enumerate(["XCoordinatePrimaryN", "YCoordinatePrimaryN", "TYPrimaryN"]):
+            t["%s%d" % (c, n)] = 64 + 3 * n + i
+    t["NumberOfPrimaries"] = 82
+    for i, c in enumerate(["Coolest", "PhysicalCoolest", "Warmest", "PhysicalWarmest"]):
+        t["ColourTemperatureTc" + c] = 128 + i
+    for pre, base, tc, rgb in (("Temporary", 192, "TemporaryColourTemperature", "TemporaryRgbwafControl"),
+                               ("Report", 224, "ReportColourTemperatureTc", "ReportRgbwafControl")):
+        t[pre + "XCoordinate"] = base
+        t[pre + "YCoordinate"] = base + 1
+        t[tc] = base + 2
+        for n in range(6):
+            t["%sPrimaryNDimLevel%d" % (pre, n)] = base + 3 + n
+        for i, c in enumerate(["Red", "Green", "Blue", "White", "Amber", "Freecolour"]):
+            t[pre + c + "DimLevel"] = base + 9 + i
+        t[rgb] = base + 15
+        t[pre + "ColourType"] = base + 16
+    return t
+
+
+SPEC_QUERY = _spec_query_selectors()
+SPEC_QUERY_NAMES = sorted(SPEC_QUERY, key=SPEC_QUERY.get)
+# IEC 62386-209 command 242 STORE COLOUR TEMPERATURE Tc LIMIT, DTR2 selector
+SPEC_LIMIT = {"TcCoolest": 0, "TcWarmest": 1, "TcPhysicalCoolest": 2, "TcPhysicalWarmest": 3}
+SPEC_LIMIT_NAMES = sorted(SPEC_LIMIT, key=SPEC_LIMIT.get)
 
 
 def gen_plan(seed, tier="quick"):
@@ -52,15 +90,20 @@ def gen_plan(seed, tier="quick"):
         plan["dest_group"] = r.randrange(16)
     if kind == "query":
         plan["dest"] = r.choice(["short", "int"])
-        sel = r.choice(list(colour.QueryColourValueDTR))
-        plan["selector"] = sel.value
+        plan["selector_name"] = r.choice(SPEC_QUERY_NAMES)
+        plan["selector"] = SPEC_QUERY[plan["selector_name"]]
+
+        class sel:                       # noqa: N801 - what the unit stores is keyed by the spec's number
+            value = plan["selector"]
         v = r.choice(EDGES + [r.getrandbits(16), r.getrandbits(16), 0xFF00 | r.randrange(256), r.randrange(0xFF00)])
         if r.random() < 0.9:
             units[0]["values"][str(sel.value)] = v
         if r.random() < 0.35:
-            plan["fault"] = [r.randrange(0, 4), r.choice(["drop", "garble"])]
+            plan["fault"] = [r.randrange(0, 4), r.choice(["drop", "garble", "garble", "garble-same"])]
     elif kind == "limit":
         plan["selector"] = r.choice([0, 1, 2, 3])
+        # by the library's name for it (what an application writes), or as a bare number
+        plan["selector_name"] = SPEC_LIMIT_NAMES[plan["selector"]] if r.random() < 0.6 else None
     if seed % 40 == 17 and kind != "badarg":
         plan["fault"] = None
         plan["transport"] = ("tridonic", "luba", "sci")[(seed // 40) % 3]
@@ -162,7 +205,14 @@ def run_plan(plan):
                     break
     elif kind == "limit":
         sel = plan["selector"]
-        sr = run(lambda: SetDT8TcLimit(dest, sel, tc), cap=50)
+        arg = sel
+        if plan.get("selector_name"):
+            arg = getattr(colour.StoreColourTemperatureTcLimitDTR2, plan["selector_name"], None)
+            probes["limit-selector-by-name"] = 1
+            if arg is None:
+                V("selector-missing", "StoreColourTemperatureTcLimitDTR2.%s does not exist" % plan["selector_name"])
+                arg = sel
+        sr = run(lambda: SetDT8TcLimit(dest, arg, tc), cap=50)
         if sr.status != "return":
             V("sequence-failed", "SetDT8TcLimit(%s, %d, %d): %s %r" % (dk, sel, tc, sr.status, sr.exc), site=dk)
         else:
@@ -177,8 +227,12 @@ def run_plan(plan):
                     V("bystander-changed", "unit %s not addressed but stored %s" % (u.name, u.tc_limits), site=dk)
                     break
     else:
-        sel = colour.QueryColourValueDTR(plan["selector"])
-        stored = t.colour_values.get(sel.value)
+        sel = getattr(colour.QueryColourValueDTR, plan.get("selector_name") or "", None)
+        if sel is None and plan.get("selector_name"):
+            V("selector-missing", "QueryColourValueDTR.%s does not exist" % plan["selector_name"])
+        if sel is None:
+            sel = colour.QueryColourValueDTR(plan["selector"])
+        stored = t.colour_values.get(plan["selector"])
         sr = run(lambda: QueryDT8ColourValue(dest, sel), answer_faults=faults, cap=50)
         fired = {c[0]: c[4] for c in sr.commands if c[4]}
         if stored is None or (stored >> 8) == 0xFF or 2 in fired or 3 in fired:
